@@ -157,6 +157,15 @@ func (s *Server) exec(cs *connState, name string, args [][]byte) resp.Reply {
 		cs.db = int(n)
 		return ok
 	case "info":
+		if s.InfoHook != nil {
+			sec := ""
+			if len(args) > 0 {
+				sec = strings.ToLower(string(args[0]))
+			}
+			if b := s.InfoHook(sec); b != nil && sec != "keyspace" {
+				return resp.Bulk(b)
+			}
+		}
 		return resp.Bulk(s.info(args))
 	case "dbsize":
 		n := 0
